@@ -91,9 +91,9 @@ func analyse23(r *txRun) map[string]int {
 		prev, val string
 		tx        *txRec
 	}
-	edges := map[cellKey][]edge{}      // committed net writes
-	attempts := map[cellKey][]edge{}   // net writes of transactions whose commit was rejected
-	indet := map[cellKey]bool{}        // cells touched by indeterminate transactions
+	edges := map[cellKey][]edge{}    // committed net writes
+	attempts := map[cellKey][]edge{} // net writes of transactions whose commit was rejected
+	indet := map[cellKey]bool{}      // cells touched by indeterminate transactions
 	byMsg := map[string]*txRec{}
 	for _, tx := range r.txs {
 		st["txs"]++
